@@ -133,7 +133,25 @@ fn gen_v(depth: u32) -> V {
                 V::Map((0..1 + choice(2)).map(|i| (V::Array((0..i).map(|k| V::Uint(70_000 + k)).collect()), V::List((0..choice(3)).map(|k| V::Uint(k)).collect()))).collect())
             }
         }
-        18 => V::Map((0..choice(4)).map(|i| (V::Str(format!("k{}", i)), gen_v(depth + 1))).collect()),
+        18 => {
+            // keys of every kind that may precede a value of another kind (one serializer writes
+            // both halves of an entry): strings, symbols, numbers, timestamps, binaries, uuids
+            let kk = choice(7);
+            V::Map(
+                (0..choice(4))
+                    .map(|i| {
+                        let key = match kk {
+                            0 | 1 => V::Str(format!("k{}", i)),
+                            2 | 3 => V::Sym(format!("sym-key-{}", i)),
+                            4 => V::Ulong(i as u64),
+                            5 => V::Timestamp(1_600_000_000_000 + i as i64),
+                            _ => V::Bin(vec![i as u8; 3]),
+                        };
+                        (key, gen_v(depth + 1))
+                    })
+                    .collect(),
+            )
+        }
         19 if choice(3) == 0 => {
             // arrays of compound or zero-width elements
             let n = 1 + choice(3);
